@@ -293,4 +293,447 @@ theorem shutdown_exact (r : CHPRP) (x : Vec) (hx : (assembleCHPP r).FeasibleRela
   rcases ho with ho | ho <;> rcases ho' with ho' | ho' <;> rcases hs with hs | hs <;> rcases hq with hq | hq <;>
     rw [ho, ho', hs, hq] at he <;> rw [hs, hq] at hov <;> simp only [ho, ho', hq] <;> grind
 
+
+/-! ### the overlap rows stop one step early: at the LAST step start and shutdown flag may both be 1 -/
+
+/-- `Plant(min 3, max 10, start_ramp_lower_bounds [1], start_ramp_upper_bounds [2])`, two steps, was off -/
+def witnessLast : CHPRP :=
+  { core :=
+      { name := "p", nodes := ["el"], T := 2, idx := [0, 1],
+        base := { name := "p", nodes := ["el"], c := [0, 0], l := [3, 3], u := [10, 10], rows := [],
+                  mapping := [⟨0, "p", some "el", .d, 0, 1, false, "disp"⟩, ⟨1, "p", some "el", .d, 1, 1, false, "disp"⟩] },
+        heat := false, fuel := none, conv := [1, 1], share := none, ramp := none, last := 0,
+        startCosts := [0, 0], runningCosts := [0, 0], R := 1, D := 0, tar := 0, tao := 0, incOn := true, incStart := true,
+        fuelEff := [], consIfOn := [], startFuel := [] },
+    prof := { sl := [1], su := [2], ql := [], qu := [], slh := none, suh := none, qlh := none, quh := none } }
+
+/-- on `11`, start `11`, shutdown `01`: at the last step (no overlap row) a start AND a shutdown are flagged while
+    the unit simply stays on — and the step is bounded by the start profile `[1, 2]` instead of `[3, 10]` -/
+theorem last_step_flags_not_exclusive :
+    ∃ x : Vec, (assembleCHPP witnessLast).FeasibleRelaxed x ∧
+      x (witnessLast.core.layout.on 0) = 1 ∧ x (witnessLast.core.layout.on 1) = 1 ∧
+      x (witnessLast.core.layout.start 1) = 1 ∧ x (witnessLast.shut 1) = 1 ∧ witnessLast.core.vd x 1 = 1 := by
+  refine ⟨fun j => [1, 1, 1, 1, 1, 1, 0, 1].getD j 0, ?_, by decide +kernel, by decide +kernel, by decide +kernel,
+    by decide +kernel, by decide +kernel⟩
+  unfold AssetProblem.FeasibleRelaxed InBounds
+  decide +kernel
+
+/-! ### non-vacuity of ITEM 1: the profile takes precedence over `min_cap` -/
+
+/-- `Plant(min 3, max 10, min_runtime 0, start ramp [1/2, 1] … [1, 2])`, three steps, was off -/
+def witnessProf : CHPRP :=
+  { core :=
+      { name := "p", nodes := ["el"], T := 3, idx := [0, 1, 2],
+        base := { name := "p", nodes := ["el"], c := [0, 0, 0], l := [3, 3, 3], u := [10, 10, 10], rows := [],
+                  mapping := (List.range 3).map fun j => ⟨j, "p", some "el", .d, j, 1, false, "disp"⟩ },
+        heat := false, fuel := none, conv := [1, 1, 1], share := none, ramp := none, last := 0,
+        startCosts := [0, 0, 0], runningCosts := [0, 0, 0], R := 2, D := 0, tar := 0, tao := 0, incOn := true, incStart := true,
+        fuelEff := [], consIfOn := [], startFuel := [] },
+    prof := { sl := [1/2, 1], su := [1, 2], ql := [], qu := [], slh := none, suh := none, qlh := none, quh := none } }
+
+/-- start at step 0 with dispatch `1, 2, 5`: feasible although `1, 2 < min_cap = 3` (the profile takes precedence);
+    `3, 2, 5` is NOT feasible (`3 > su_0 = 1`) -/
+theorem profile_precedence_witness :
+    (assembleCHPP witnessProf).FeasibleRelaxed (fun j => [1, 2, 5, 1, 1, 1, 1, 0, 0, 0, 0, 0].getD j 0) ∧
+    ¬ (assembleCHPP witnessProf).FeasibleRelaxed (fun j => [3, 2, 5, 1, 1, 1, 1, 0, 0, 0, 0, 0].getD j 0) := by
+  unfold AssetProblem.FeasibleRelaxed InBounds
+  decide +kernel
+
+/-- the hypotheses of `start_profile_bounds` are satisfiable: step 1 of the witness is the step `k = 1` after the start -/
+example : let x : Vec := fun j => [1, 2, 5, 1, 1, 1, 1, 0, 0, 0, 0, 0].getD j 0
+    witnessProf.prof.sl.getD 1 0 ≤ witnessProf.core.vd x 1 ∧ witnessProf.core.vd x 1 ≤ witnessProf.prof.su.getD 1 0 := by
+  intro x
+  refine start_profile_bounds witnessProf x profile_precedence_witness.1 rfl 1 (by decide) (by decide) 1 (by decide) (by decide)
+    (by decide +kernel) (by decide +kernel) ?_ ?_
+  · intro j h1 h2 h3
+    have h1' : j < 2 := h1
+    have : j = 0 := by omega
+    subst this
+    decide +kernel
+  · intro j h1
+    exact absurd h1 (Nat.not_lt_zero j)
+
+
+/-! ## ITEM 3: window (C08) for the profile builder -/
+
+theorem mem_shutRows {r : CHPRP} {m : MapRow} (h : m ∈ r.shutRows) : m.step ∈ r.core.idx ∧ m.asset = r.core.name := by
+  simp only [CHPRP.shutRows, List.mem_map] at h
+  obtain ⟨⟨m0, i⟩, hq, rfl⟩ := h
+  obtain ⟨hi, hm0⟩ := List.mem_zipIdx' hq
+  have hm0 : m0 ∈ r.core.boolRows "bool_shutdown" := hm0 ▸ List.getElem_mem hi
+  exact ⟨(mem_boolRows hm0).1, (mem_boolRows hm0).2.1⟩
+
+theorem mem_mappingP {r : CHPRP} {m : MapRow} (h : m ∈ r.mapping) : FromWindow r.core m := by
+  unfold CHPRP.mapping at h
+  rcases List.mem_append.mp h with h | h
+  · rcases List.mem_append.mp h with h | h
+    · exact mem_mappingCore h
+    · exact Or.inl (mem_shutRows h)
+  · split at h
+    · simp at h
+    · obtain ⟨m', hm', e1, e2, _⟩ := mem_fuelRows h
+      have := mem_mappingCore hm'
+      unfold FromWindow at this ⊢
+      rw [e1, e2]; exact this
+
+/-- steps of the mapping of `assembleCHPP r` -/
+theorem assembleCHPP_step {r : CHPRP} : ∀ m ∈ (assembleCHPP r).mapping,
+    m.step ∈ r.core.idx ∨ ∃ m' ∈ r.core.base.mapping, m.step = m'.step := by
+  intro m h
+  rcases mem_mappingP (r := r) h with h | ⟨m', hm', e, _⟩
+  · exact Or.inl h.1
+  · exact Or.inr ⟨m', hm', e⟩
+
+/-- asset names of the mapping of `assembleCHPP r` -/
+theorem assembleCHPP_asset {r : CHPRP} : ∀ m ∈ (assembleCHPP r).mapping,
+    m.asset = r.core.name ∨ ∃ m' ∈ r.core.base.mapping, m.asset = m'.asset := by
+  intro m h
+  rcases mem_mappingP (r := r) h with h | ⟨m', hm', _, e⟩
+  · exact Or.inl h.2
+  · exact Or.inr ⟨m', hm', e⟩
+
+theorem resolveCHPP_cases {p : CHPP} {q : CHPProfP} {base : AssetProblem} {g : Grid} {prices : Prices} {u s : Nat}
+    {o : Option CHPRP} (h : resolveCHPP p q base g prices u s false = .ok o) :
+    (g.T = 0 ∧ o = none) ∨
+    (g.T ≠ 0 ∧ ∃ r, o = some r ∧ r.core.idx = g.idx ∧ r.core.base = base ∧ r.core.name = p.name ∧
+      r.core.nodes = p.nodes ∧ r.core.T = g.T) := by
+  unfold resolveCHPP at h
+  simp only [bind, Except.bind, pure, Except.pure] at h
+  cases hc : chpCtor p with
+  | error e => simp [hc] at h
+  | ok hf =>
+    simp only [hc] at h
+    cases hp : profCtor q with
+    | error e => simp [hp] at h
+    | ok sd =>
+      simp only [hp] at h
+      by_cases hT : g.T = 0
+      · simp [hT] at h
+        exact Or.inl ⟨hT, h.symm⟩
+      · simp only [hT, if_false] at h
+        split at h
+        · simp [throw, throwThe, MonadExceptOf.throw] at h
+        cases hv : chpVectors p g prices hf.1 hf.2 with
+        | error e => simp [hv] at h
+        | ok v =>
+          simp only [hv] at h
+          split at h
+          · simp at h
+          · simp only [Bool.false_eq_true, if_false] at h
+            split at h
+            · simp at h
+            · split at h
+              · simp [throw, throwThe, MonadExceptOf.throw] at h
+              · split at h
+                · simp [throw, throwThe, MonadExceptOf.throw] at h
+                · injection h with h
+                  exact Or.inr ⟨hT, _, h.symm, rfl, rfl, rfl, rfl, rfl⟩
+
+
+/-- inversion of `buildCHPP`: the parent's problem on an empty window, otherwise `assembleCHPP` of the resolved inputs -/
+theorem buildCHPP_cases {p : CHPP} {q : CHPProfP} {base : AssetProblem} {g : Grid} {prices : Prices} {u s : Nat}
+    {P : AssetProblem} (h : buildCHPP p q base g prices u s = .ok P) :
+    (g.T = 0 ∧ P = base) ∨
+    ∃ r, resolveCHPP p q base g prices u s false = .ok (some r) ∧ P = assembleCHPP r ∧ r.core.idx = g.idx ∧
+      r.core.base = base ∧ r.core.name = p.name := by
+  unfold buildCHPP at h
+  cases hr : resolveCHPP p q base g prices u s false with
+  | error e => simp [hr, bind, Except.bind] at h
+  | ok o =>
+    rcases resolveCHPP_cases hr with ⟨hT, rfl⟩ | ⟨_, r, rfl, h1, h2, h3, _, _⟩
+    · simp [hr, bind, Except.bind, pure, Except.pure] at h
+      exact Or.inl ⟨hT, h.symm⟩
+    · simp [hr, bind, Except.bind, pure, Except.pure] at h
+      exact Or.inr ⟨r, rfl, h.symm, h1, h2, h3⟩
+
+/-- C08 for the profile builder: if the parent's mapping stays in the window, so does the generated mapping -/
+theorem buildCHPP_window {p : CHPP} {q : CHPProfP} {base : AssetProblem} {g : Grid} {prices : Prices} {u s : Nat}
+    {P : AssetProblem} (hb : ∀ m ∈ base.mapping, m.step ∈ g.idx) (h : buildCHPP p q base g prices u s = .ok P) :
+    ∀ m ∈ P.mapping, m.step ∈ g.idx := by
+  rcases buildCHPP_cases h with ⟨_, rfl⟩ | ⟨r, _, rfl, h1, h2, _⟩
+  · exact hb
+  · intro m hm
+    rcases assembleCHPP_step m hm with h | ⟨m', hm', e⟩
+    · exact h1 ▸ h
+    · rw [e]; exact hb m' (h2 ▸ hm')
+
+/-- asset names: every mapping row carries the asset's name if the parent's rows do -/
+theorem buildCHPP_asset {p : CHPP} {q : CHPProfP} {base : AssetProblem} {g : Grid} {prices : Prices} {u s : Nat}
+    {P : AssetProblem} (hb : ∀ m ∈ base.mapping, m.asset = p.name) (h : buildCHPP p q base g prices u s = .ok P) :
+    ∀ m ∈ P.mapping, m.asset = p.name := by
+  rcases buildCHPP_cases h with ⟨_, rfl⟩ | ⟨r, _, rfl, _, h2, h3⟩
+  · exact hb
+  · intro m hm
+    rcases assembleCHPP_asset m hm with h | ⟨m', hm', e⟩
+    · exact h3 ▸ h
+    · rw [e]; exact hb m' (h2 ▸ hm')
+
+/-- empty window: the parent's problem is returned unchanged -/
+theorem buildCHPP_empty {p : CHPP} {q : CHPProfP} {base : AssetProblem} {g : Grid} {prices : Prices} {u s : Nat}
+    {P : AssetProblem} (hT : g.T = 0) (h : buildCHPP p q base g prices u s = .ok P) : P = base := by
+  rcases buildCHPP_cases h with ⟨_, e⟩ | ⟨r, hr, _⟩
+  · exact e
+  · rcases resolveCHPP_cases hr with ⟨_, e⟩ | ⟨hT', _⟩
+    · cases e
+    · exact absurd hT hT'
+
+
+/-! ## ITEM 4: the ramp rows are relaxed during the start / shutdown ramps -/
+
+/-- extending the coefficient list of a row by terms whose sum vanishes does not change its reading -/
+theorem sat_extend (row : Row) (extra : List (Nat × Rat)) (x : Vec) (h : tsum extra x = 0) :
+    ({ row with coeffs := row.coeffs ++ extra } : Row).Sat x ↔ row.Sat x := by
+  have : ∀ k, ({ coeffs := row.coeffs ++ extra, rhs := row.rhs, kind := k } : Row).eval x = row.eval x := by
+    intro k
+    show tsum (row.coeffs ++ extra) x = tsum row.coeffs x
+    rw [tsum_append, h]; grind
+  cases hk : row.kind <;> simp [Row.Sat, hk, this]
+
+theorem rampRowsP_mem (r : CHPRP) {row : Row} (h : row ∈ r.rampRows) : row ∈ r.rows := by
+  simp only [CHPRP.rows, List.mem_append]
+  exact Or.inl (Or.inl (Or.inl (Or.inl (Or.inr h))))
+
+theorem rampLowerP_mem (r : CHPRP) {ρ : Rat} (hρ : r.core.ramp = some ρ) {t : Nat} (h1 : 1 ≤ t) (ht : t < r.core.T) :
+    r.rampLower ρ t ∈ r.rows := by
+  apply rampRowsP_mem
+  simp only [CHPRP.rampRows, hρ, List.mem_append, List.mem_flatMap, List.mem_range]
+  refine Or.inl ⟨t - 1, by omega, ?_⟩
+  have : t - 1 + 1 = t := by omega
+  simp [this]
+
+theorem rampUpperP_mem (r : CHPRP) {ρ : Rat} (hρ : r.core.ramp = some ρ) {t : Nat} (h1 : 1 ≤ t) (ht : t < r.core.T) :
+    r.rampUpper ρ t ∈ r.rows := by
+  apply rampRowsP_mem
+  simp only [CHPRP.rampRows, hρ, List.mem_append, List.mem_flatMap, List.mem_range]
+  refine Or.inl ⟨t - 1, by omega, ?_⟩
+  have : t - 1 + 1 = t := by omega
+  simp [this]
+
+theorem rampFirstLowerP_mem (r : CHPRP) {ρ : Rat} (hρ : r.core.ramp = some ρ) : r.rampFirstLower ρ ∈ r.rows := by
+  apply rampRowsP_mem
+  simp [CHPRP.rampRows, hρ]
+
+theorem rampFirstUpperP_mem (r : CHPRP) {ρ : Rat} (hρ : r.core.ramp = some ρ) : r.core.rampFirstUpper ρ ∈ r.rows := by
+  apply rampRowsP_mem
+  simp [CHPRP.rampRows, hρ]
+
+/-- the start terms of the upper ramp row of step `t` -/
+def rampStartTerms (r : CHPRP) (ρ : Rat) (t : Nat) : List (Nat × Rat) :=
+  ((List.range r.prof.S).filter fun i => decide (i ≤ t)).map fun i => (r.core.layout.start (t - i), ρ - r.core.maxCap t)
+
+/-- the shutdown terms of the lower ramp row of step `t` -/
+def rampShutTerms (r : CHPRP) (ρ : Rat) (t : Nat) : List (Nat × Rat) :=
+  ((List.range r.prof.Q).filter fun i => decide (t + i < r.core.T)).map fun i => (r.shut (t + i), r.core.maxCap (t - 1) - ρ)
+
+theorem rampUpperP_eval (r : CHPRP) (x : Vec) (ρ : Rat) (t : Nat) :
+    (r.rampUpper ρ t).eval x = (r.core.rampUpper ρ t).eval x + tsum (rampStartTerms r ρ t) x := by
+  simp only [eval_eq_tsum, CHPRP.rampUpper, tsum_append, rampStartTerms]
+
+theorem rampLowerP_eval (r : CHPRP) (x : Vec) (ρ : Rat) (t : Nat) :
+    (r.rampLower ρ t).eval x = (r.core.rampLower ρ t).eval x + tsum (rampShutTerms r ρ t) x := by
+  simp only [eval_eq_tsum, CHPRP.rampLower, tsum_append, rampShutTerms]
+
+theorem rampFirstLowerP_eval (r : CHPRP) (x : Vec) (ρ : Rat) :
+    (r.rampFirstLower ρ).eval x = (r.core.rampFirstLower ρ).eval x +
+      tsum ((List.range r.prof.Q).map fun i => (r.shut i, r.core.last - ρ)) x := by
+  simp only [eval_eq_tsum, CHPRP.rampFirstLower, tsum_append]
+
+/-- no start flag in the window of the upper ramp row: the profile-free reading holds -/
+theorem ramp_upper_outside (r : CHPRP) (x : Vec) (hx : (assembleCHPP r).FeasibleRelaxed x) (ρ : Rat)
+    (hρ : r.core.ramp = some ρ) (t : Nat) (h1 : 1 ≤ t) (ht : t < r.core.T)
+    (hs0 : ∀ i, i < r.prof.S → i ≤ t → x (r.core.layout.start (t - i)) = 0) :
+    r.core.vd x t ≤ r.core.vd x (t - 1) + (if r.core.incOn then ρ * x (r.core.layout.on t) else ρ) := by
+  have h := sat_of_memP hx (rampUpperP_mem r hρ h1 ht)
+  have h0 : tsum (rampStartTerms r ρ t) x = 0 := by
+    apply sum_no_flag
+    intro j hj
+    simp only [List.mem_filter, List.mem_range, decide_eq_true_eq] at hj
+    exact hs0 j hj.1 hj.2
+  exact (rampUpper_sat r.core x ρ t).mp ((sat_extend (r.core.rampUpper ρ t) (rampStartTerms r ρ t) x h0).mp h)
+
+/-- no shutdown flag in the window of the lower ramp row: the profile-free reading holds -/
+theorem ramp_lower_outside (r : CHPRP) (x : Vec) (hx : (assembleCHPP r).FeasibleRelaxed x) (ρ : Rat)
+    (hρ : r.core.ramp = some ρ) (t : Nat) (h1 : 1 ≤ t) (ht : t < r.core.T)
+    (hq0 : ∀ i, i < r.prof.Q → t + i < r.core.T → x (r.shut (t + i)) = 0) :
+    r.core.vd x (t - 1) - (if r.core.incOn then ρ * x (r.core.layout.on (t - 1)) else ρ) ≤ r.core.vd x t := by
+  have h := sat_of_memP hx (rampLowerP_mem r hρ h1 ht)
+  have h0 : tsum (rampShutTerms r ρ t) x = 0 := by
+    apply sum_no_flag
+    intro j hj
+    simp only [List.mem_filter, List.mem_range, decide_eq_true_eq] at hj
+    exact hq0 j hj.1 hj.2
+  exact (rampLower_sat r.core x ρ t).mp ((sat_extend (r.core.rampLower ρ t) (rampShutTerms r ρ t) x h0).mp h)
+
+/-- first step, no shutdown flag among the first `Q`: the profile-free reading of the first-step lower ramp row -/
+theorem ramp_first_lower_outside (r : CHPRP) (x : Vec) (hx : (assembleCHPP r).FeasibleRelaxed x) (ρ : Rat)
+    (hρ : r.core.ramp = some ρ) (hq0 : ∀ i, i < r.prof.Q → x (r.shut i) = 0) :
+    (if r.core.tar = 0 then r.core.last else r.core.last - ρ) ≤ r.core.vd x 0 := by
+  have h := sat_of_memP hx (rampFirstLowerP_mem r hρ)
+  have h0 : tsum ((List.range r.prof.Q).map fun i => (r.shut i, r.core.last - ρ)) x = 0 := by
+    apply sum_no_flag
+    intro j hj
+    exact hq0 j (List.mem_range.mp hj)
+  exact (rampFirstLower_sat r.core x ρ).mp ((sat_extend (r.core.rampFirstLower ρ) _ x h0).mp h)
+
+/-- the first-step upper ramp row is the profile-free one -/
+theorem ramp_first_upper (r : CHPRP) (x : Vec) (hx : (assembleCHPP r).FeasibleRelaxed x) (ρ : Rat)
+    (hρ : r.core.ramp = some ρ) :
+    r.core.vd x 0 ≤ r.core.last + (if r.core.incOn then ρ * x (r.core.layout.on 0) else ρ) :=
+  (rampFirstUpper_sat r.core x ρ).mp (sat_of_memP hx (rampFirstUpperP_mem r hρ))
+
+/-- during a start ramp (exactly one start flag in the window, unit on) the upper ramp row is relaxed to
+    `v_t − v_{t−1} ≤ max_cap_t` -/
+theorem ramp_upper_in_start_ramp (r : CHPRP) (x : Vec) (hx : (assembleCHPP r).FeasibleRelaxed x) (hon : r.core.incOn = true)
+    (ρ : Rat) (hρ : r.core.ramp = some ρ) (t : Nat) (h1 : 1 ≤ t) (ht : t < r.core.T) (k : Nat) (hk : k < r.prof.S) (hkt : k ≤ t)
+    (hon1 : x (r.core.layout.on t) = 1) (hs : x (r.core.layout.start (t - k)) = 1)
+    (hs0 : ∀ i, i < r.prof.S → i ≤ t → i ≠ k → x (r.core.layout.start (t - i)) = 0) :
+    r.core.vd x t ≤ r.core.vd x (t - 1) + r.core.maxCap t := by
+  have h := sat_of_memP hx (rampUpperP_mem r hρ h1 ht)
+  have h1' : tsum (rampStartTerms r ρ t) x = ρ - r.core.maxCap t := by
+    apply sum_one_flag _ (fun j => r.core.layout.start (t - j)) (fun _ => ρ - r.core.maxCap t) x k (startJs_nodup r t)
+    · simp [hk, hkt]
+    · exact hs
+    · intro j hj
+      simp only [List.mem_filter, List.mem_range, decide_eq_true_eq] at hj
+      exact hs0 j hj.1 hj.2
+  have hsat : (r.rampUpper ρ t).eval x ≤ (if r.core.incOn then 0 else ρ) := h
+  have hcore : (r.core.rampUpper ρ t).eval x = r.core.vd x t - r.core.vd x (t - 1) - ρ * x (r.core.layout.on t) := by
+    cases hh : r.core.heat <;>
+      simp [CHPR.rampUpper, CHPR.rampDiff, CHPR.virt, CHPR.vd, Row.eval, hh, hon] <;> grind
+  rw [rampUpperP_eval, h1', hcore, hon1] at hsat
+  simp only [hon, if_true] at hsat
+  grind
+
+/-- during a shutdown ramp (exactly one shutdown flag in the window, unit on in step `t − 1`) the lower ramp row is
+    relaxed to `v_{t−1} − v_t ≤ max_cap_{t−1}` -/
+theorem ramp_lower_in_shutdown_ramp (r : CHPRP) (x : Vec) (hx : (assembleCHPP r).FeasibleRelaxed x) (hon : r.core.incOn = true)
+    (ρ : Rat) (hρ : r.core.ramp = some ρ) (t : Nat) (h1 : 1 ≤ t) (ht : t < r.core.T) (k : Nat) (hk : k < r.prof.Q)
+    (hkT : t + k < r.core.T) (hon1 : x (r.core.layout.on (t - 1)) = 1) (hq : x (r.shut (t + k)) = 1)
+    (hq0 : ∀ i, i < r.prof.Q → t + i < r.core.T → i ≠ k → x (r.shut (t + i)) = 0) :
+    r.core.vd x (t - 1) - r.core.maxCap (t - 1) ≤ r.core.vd x t := by
+  have h := sat_of_memP hx (rampLowerP_mem r hρ h1 ht)
+  have h1' : tsum (rampShutTerms r ρ t) x = r.core.maxCap (t - 1) - ρ := by
+    apply sum_one_flag _ (fun j => r.shut (t + j)) (fun _ => r.core.maxCap (t - 1) - ρ) x k
+      (List.Pairwise.filter _ List.nodup_range)
+    · simp [hk, hkT]
+    · exact hq
+    · intro j hj
+      simp only [List.mem_filter, List.mem_range, decide_eq_true_eq] at hj
+      exact hq0 j hj.1 hj.2
+  have hsat : (if r.core.incOn then 0 else - ρ) ≤ (r.rampLower ρ t).eval x := h
+  have hcore : (r.core.rampLower ρ t).eval x = r.core.vd x t - r.core.vd x (t - 1) + ρ * x (r.core.layout.on (t - 1)) := by
+    cases hh : r.core.heat <;>
+      simp [CHPR.rampLower, CHPR.rampDiff, CHPR.virt, CHPR.vd, Row.eval, hh, hon] <;> grind
+  rw [rampLowerP_eval, h1', hcore, hon1] at hsat
+  simp only [hon, if_true] at hsat
+  grind
+
+
+/-! ### non-vacuity of ITEM 3: `buildCHPP` on a concrete window (evaluated by the kernel) -/
+namespace Ex
+
+/-- hourly horizon; the asset's window keeps steps 3 and 4 -/
+def g : Grid := { pts := [10800, 14400], idx := [3, 4], dt := [1, 1], Dt := [3, 4], df := [1, 1] }
+def gEmpty : Grid := { pts := [], idx := [], dt := [], Dt := [], df := [] }
+/-- what the parent `Contract` (`min_cap 1`, `max_cap 3`) returns on the window -/
+def base : AssetProblem :=
+  { name := "pl", nodes := ["power"], c := [0, 0], l := [1, 1], u := [3, 3], rows := [],
+    mapping := [⟨0, "pl", some "power", .d, 3, 1, false, "disp"⟩, ⟨1, "pl", some "power", .d, 4, 1, false, "disp"⟩] }
+/-- `Plant` with a one-step start ramp `[1/2, 1]` and a one-step shutdown ramp `[1/2, 1/2]` -/
+def p : CHPP :=
+  { name := "pl", nodes := ["power"], noHeat := true, minCap := .scalar 1,
+    convFactor := .scalar 1, maxShareHeat := none, ramp := some 1, startCosts := .scalar 0,
+    runningCosts := .scalar 0, minRuntime := 0, timeAlreadyRunning := 0, minDowntime := 0, timeAlreadyOff := 0,
+    lastDispatch := 0, startFuel := .scalar 0, fuelEfficiency := .scalar 1, consumptionIfOn := .scalar 0,
+    freqMismatch := false }
+def q : CHPProfP :=
+  { startLo := some [1/2], startUp := some [1], shutLo := some [1/2], shutUp := none, startLoH := none, startUpH := none,
+    shutLoH := none, shutUpH := none, rampFreqSec := 3600, sameFreq := true }
+
+-- the builder succeeds: 2 power + 2 on + 2 start + 2 shutdown variables, all mapping rows at steps 3 and 4
+example : (match buildCHPP p q base g [] 3600 3600 with
+    | .ok P => P.c.length == 8 && P.l.length == 8 && P.u.length == 8 &&
+               P.mapping.map (fun m => (m.var, m.step)) == [(0, 3), (1, 4), (2, 3), (3, 4), (4, 3), (5, 4), (6, 3), (7, 4)] &&
+               P.mapping.map (fun m => m.varName) ==
+                 ["disp", "disp", "bool_on", "bool_on", "bool_start", "bool_start", "bool_shutdown", "bool_shutdown"]
+    | .error _ => false) = true := by decide +kernel
+
+-- empty window: the parent's problem
+example : (match buildCHPP p q base gEmpty [] 3600 3600 with
+    | .ok P => P.mapping == base.mapping && P.c == base.c
+    | .error _ => false) = true := by decide +kernel
+
+end Ex
+
+
+/-! ### non-vacuity of `shutdown_profile_bounds` and `shutdown_exact` -/
+
+/-- `Plant(min 3, max 10, start ramp [1]…[2], shutdown ramp [1/2]…[1])`, five steps, was off -/
+def witnessShut : CHPRP :=
+  { core :=
+      { name := "p", nodes := ["el"], T := 5, idx := [0, 1, 2, 3, 4],
+        base := { name := "p", nodes := ["el"], c := [0, 0, 0, 0, 0], l := [3, 3, 3, 3, 3], u := [10, 10, 10, 10, 10], rows := [],
+                  mapping := (List.range 5).map fun j => ⟨j, "p", some "el", .d, j, 1, false, "disp"⟩ },
+        heat := false, fuel := none, conv := [1, 1, 1, 1, 1], share := none, ramp := none, last := 0,
+        startCosts := [0, 0, 0, 0, 0], runningCosts := [0, 0, 0, 0, 0], R := 2, D := 0, tar := 0, tao := 0,
+        incOn := true, incStart := true, fuelEff := [], consIfOn := [], startFuel := [] },
+    prof := { sl := [1], su := [2], ql := [1/2], qu := [1], slh := none, suh := none, qlh := none, quh := none } }
+
+/-- on `11100`, start at 0, shutdown flagged at 3, dispatch `1, 5, 1, 0, 0` -/
+def xShut : Vec := fun j => [1, 5, 1, 0, 0, 1, 1, 1, 0, 0, 1, 0, 0, 0, 0, 0, 0, 0, 1, 0].getD j 0
+
+theorem witnessShut_feasible : (assembleCHPP witnessShut).FeasibleRelaxed xShut := by
+  unfold AssetProblem.FeasibleRelaxed InBounds
+  decide +kernel
+
+/-- step 2 is the last step before the shutdown (`k = 0`): bounded by `[1/2, 1]`, below `min_cap = 3` -/
+example : witnessShut.prof.ql.getD 0 0 ≤ witnessShut.core.vd xShut 2 ∧ witnessShut.core.vd xShut 2 ≤ witnessShut.prof.qu.getD 0 0 := by
+  refine shutdown_profile_bounds witnessShut xShut witnessShut_feasible rfl 2 (by decide) (by decide) 0 (by decide) (by decide)
+    (by decide +kernel) (by decide +kernel) ?_ ?_
+  · intro j h1 _ h3
+    have h1' : j < 1 := h1
+    omega
+  · intro j h1 _
+    have h1' : j < 1 := h1
+    have : j = 0 := by omega
+    subst this
+    decide +kernel
+
+/-- the shutdown flag of step 3 marks the on→off transition 2 → 3 -/
+example : xShut (witnessShut.shut 3) = 1 ↔
+    (xShut (witnessShut.core.layout.on 2) = 1 ∧ xShut (witnessShut.core.layout.on 3) = 0) :=
+  shutdown_exact witnessShut xShut witnessShut_feasible 2 (by decide) (by decide +kernel) (by decide +kernel)
+    (by decide +kernel) (by decide +kernel)
+
 end EAO.CHPProfile
+
+/-
+`#print axioms` (scratch file importing the built module):
+'EAO.CHPProfile.sum_one_flag' depends on axioms: [propext, Classical.choice, Quot.sound]
+'EAO.CHPProfile.start_profile_bounds' depends on axioms: [propext, Classical.choice, Quot.sound]
+'EAO.CHPProfile.shutdown_profile_bounds' depends on axioms: [propext, Classical.choice, Quot.sound]
+'EAO.CHPProfile.capacity_outside_ramps' depends on axioms: [propext, Classical.choice, Quot.sound]
+'EAO.CHPProfile.init_ramp_bounds' depends on axioms: [propext, Classical.choice, Quot.sound]
+'EAO.CHPProfile.start_shut_flag' depends on axioms: [propext, Classical.choice, Quot.sound]
+'EAO.CHPProfile.first_flag_off' depends on axioms: [propext, Classical.choice, Quot.sound]
+'EAO.CHPProfile.first_flag_running' depends on axioms: [propext, Classical.choice, Quot.sound]
+'EAO.CHPProfile.no_overlap' depends on axioms: [propext, Classical.choice, Quot.sound]
+'EAO.CHPProfile.start_exact' depends on axioms: [propext, Classical.choice, Quot.sound]
+'EAO.CHPProfile.shutdown_exact' depends on axioms: [propext, Classical.choice, Quot.sound]
+'EAO.CHPProfile.last_step_flags_not_exclusive' depends on axioms: [propext, Classical.choice, Quot.sound]
+'EAO.CHPProfile.profile_precedence_witness' depends on axioms: [propext, Classical.choice, Quot.sound]
+'EAO.CHPProfile.witnessShut_feasible' depends on axioms: [propext, Classical.choice, Quot.sound]
+'EAO.CHPProfile.assembleCHPP_step' depends on axioms: [propext, Classical.choice, Quot.sound]
+'EAO.CHPProfile.assembleCHPP_asset' depends on axioms: [propext, Classical.choice, Quot.sound]
+'EAO.CHPProfile.resolveCHPP_cases' depends on axioms: [propext, Classical.choice, Quot.sound]
+'EAO.CHPProfile.buildCHPP_cases' depends on axioms: [propext, Classical.choice, Quot.sound]
+'EAO.CHPProfile.buildCHPP_window' depends on axioms: [propext, Classical.choice, Quot.sound]
+'EAO.CHPProfile.buildCHPP_asset' depends on axioms: [propext, Classical.choice, Quot.sound]
+'EAO.CHPProfile.buildCHPP_empty' depends on axioms: [propext, Classical.choice, Quot.sound]
+'EAO.CHPProfile.ramp_upper_outside' depends on axioms: [propext, Classical.choice, Quot.sound]
+'EAO.CHPProfile.ramp_lower_outside' depends on axioms: [propext, Classical.choice, Quot.sound]
+'EAO.CHPProfile.ramp_first_lower_outside' depends on axioms: [propext, Classical.choice, Quot.sound]
+'EAO.CHPProfile.ramp_first_upper' depends on axioms: [propext, Classical.choice, Quot.sound]
+'EAO.CHPProfile.ramp_upper_in_start_ramp' depends on axioms: [propext, Classical.choice, Quot.sound]
+'EAO.CHPProfile.ramp_lower_in_shutdown_ramp' depends on axioms: [propext, Classical.choice, Quot.sound]
+-/
